@@ -446,3 +446,135 @@ pub fn children(prefix_len: usize, points: &[PointRec], bound: usize) -> Vec<Vec
     }
     out
 }
+
+// =============================================================================================
+// self-tests of the scheduler on three textbook programs with known answers
+// =============================================================================================
+
+fn explore_all<R: Send + Clone + 'static, F: Fn() -> Vec<Box<dyn FnOnce() -> R + Send>>>(make: F, bound: usize) -> (u64, Vec<(Vec<Option<R>>, bool)>) {
+    let mut stack: Vec<Vec<usize>> = vec![vec![]];
+    let mut n = 0u64;
+    let mut outs = Vec::new();
+    while let Some(prefix) = stack.pop() {
+        let sched = Sched::new(prefix.clone());
+        let g = setup_hooks(&sched);
+        let bodies = make();
+        drop(g);
+        let ex = run_threads(&sched, bodies);
+        assert!(ex.diverged.is_none(), "self-test replay diverged: {:?}", ex.diverged);
+        n += 1;
+        outs.push((ex.results.clone(), ex.deadlock.is_some()));
+        stack.extend(children(prefix.len(), &ex.points, bound));
+    }
+    (n, outs)
+}
+
+pub fn selftest() -> i32 {
+    use std::sync::atomic::Ordering;
+    use teos::verif_sync::{AtomicU32, Condvar, Mutex};
+    let mut ok = true;
+    let mut check = |name: &str, cond: bool, detail: String| {
+        println!("selftest {name}: {} ({detail})", if cond { "ok" } else { "FAILED" });
+        ok &= cond;
+    };
+    // 1. lost update: two threads, each load then store(v+1). 3 scheduling points per thread
+    //    (start, load, store) => C(6,3) = 20 complete schedules; final values {1, 2}.
+    let (n, outs) = explore_all(
+        || {
+            let a = Arc::new(AtomicU32::new(0));
+            (0..2)
+                .map(|_| {
+                    let a = a.clone();
+                    Box::new(move || {
+                        let v = a.load(Ordering::SeqCst);
+                        a.store(v + 1, Ordering::SeqCst);
+                        a.load(Ordering::SeqCst)
+                    }) as Box<dyn FnOnce() -> u32 + Send>
+                })
+                .collect()
+        },
+        usize::MAX,
+    );
+    let finals: std::collections::BTreeSet<u32> = outs.iter().map(|(r, _)| r.iter().map(|x| x.unwrap_or(0)).max().unwrap()).collect();
+    // each thread has 4 points here (start, load, store, load) => C(8,4) = 70
+    check("lost-update", n == 70 && finals.contains(&1) && finals.contains(&2), format!("{n} schedules (closed form C(8,4) = 70), final values {finals:?}"));
+    // with at most 0 pre-emptions only the two serial orders (T0 first / T1 first at the first point)
+    let (n0, outs0) = explore_all(
+        || {
+            let a = Arc::new(AtomicU32::new(0));
+            (0..2)
+                .map(|_| {
+                    let a = a.clone();
+                    Box::new(move || {
+                        let v = a.load(Ordering::SeqCst);
+                        a.store(v + 1, Ordering::SeqCst);
+                        0u32
+                    }) as Box<dyn FnOnce() -> u32 + Send>
+                })
+                .collect()
+        },
+        0,
+    );
+    let _ = outs0;
+    check("preemption-bound-0", n0 == 2, format!("{n0} schedules with bound 0 (the two serial orders)"));
+    // 2. ABBA: a circular wait must be found, and runs without it too
+    let (n, outs) = explore_all(
+        || {
+            let a = Arc::new(Mutex::new(0u32));
+            let b = Arc::new(Mutex::new(0u32));
+            let (a1, b1, a2, b2) = (a.clone(), b.clone(), a.clone(), b.clone());
+            vec![
+                Box::new(move || {
+                    let _x = a1.lock().unwrap();
+                    let _y = b1.lock().unwrap();
+                    1u32
+                }) as Box<dyn FnOnce() -> u32 + Send>,
+                Box::new(move || {
+                    let _y = b2.lock().unwrap();
+                    let _x = a2.lock().unwrap();
+                    2u32
+                }),
+            ]
+        },
+        2,
+    );
+    let dead = outs.iter().filter(|(_, d)| *d).count();
+    check("abba-deadlock", dead > 0 && dead < outs.len(), format!("{dead} of {n} schedules end in a circular wait"));
+    // 3. lost wake-up: waiter checks a flag under the mutex and waits; the setter forgets to notify
+    for notify in [false, true] {
+        let (n, outs) = explore_all(
+            move || {
+                let pair = Arc::new((Mutex::new(false), Condvar::new()));
+                let (p1, p2) = (pair.clone(), pair.clone());
+                vec![
+                    Box::new(move || {
+                        let mut g = p1.0.lock().unwrap();
+                        while !*g {
+                            g = p1.1.wait(g).unwrap();
+                        }
+                        1u32
+                    }) as Box<dyn FnOnce() -> u32 + Send>,
+                    Box::new(move || {
+                        *p2.0.lock().unwrap() = true;
+                        if notify {
+                            p2.1.notify_all();
+                        }
+                        2u32
+                    }),
+                ]
+            },
+            3,
+        );
+        let stuck = outs.iter().filter(|(_, d)| *d).count();
+        if notify {
+            check("wake-up-delivered", stuck == 0, format!("{stuck} of {n} schedules blocked with notify_all"));
+        } else {
+            check("lost-wake-up", stuck > 0 && stuck < outs.len(), format!("{stuck} of {n} schedules blocked for ever without the notification"));
+        }
+    }
+    if ok {
+        0
+    } else {
+        2
+    }
+}
